@@ -25,13 +25,12 @@
                    arises from the constructor (fmt string) or from the constructor with
                    fmt_obj=<any reachable state of a table over ANY records, or a
                    PPTableFormat made from a fmt string> (+ limits=, skip_columns=) by any
-                   sequence of fmt assignments, renderings and remove_columns (of columns
-                   that are not break-by columns of an already rendered table)
+                   sequence of fmt assignments, renderings, remove_columns (any columns, at any
+                   moment) and PPTableFormat.set_limits (at any moment)
      sessions (C13/Run.v, what the correspondence check runs): shared PPTableFormat
                    objects + tables appended by MNew (fmt string) / MNewObj (fmt_obj= a
                    shared object or tables[j].fmt), MOp j o = operation o on tables[j];
-                   mrun = the state after a list of operations, guarded = no operation
-                   removes a break-by column of an already rendered table *)
+                   mrun = the state after a list of operations *)
 From Coq Require Import ZArith List Bool.
 From AK Require Import Common.Err gen.C13_Consts C13.Model C13.Run C13.Lemmas.
 Import ListNotations.
@@ -173,7 +172,7 @@ Print Assumptions fmt_obj_own_widths.
 
 (* every table of every session is reachable with respect to its own records ... *)
 Theorem session_tables_reachable : forall fs rowsets shared ops j tb,
-  fields_okb fs = true -> guarded fs rowsets (init_sess fs shared) ops ->
+  fields_okb fs = true ->
   nth j (ss_tabs (mrun fs rowsets (init_sess fs shared) ops)) None = Some tb ->
   reachable fs (nth (tb_k tb) rowsets []) (tb_st tb).
 Proof. exact session_tables. Qed.
@@ -182,7 +181,7 @@ Print Assumptions session_tables_reachable.
 (* ... hence the property holds for each of them after any prefix of any session
    (ops is arbitrary), whatever was done to the other tables in between *)
 Theorem session_roundtrip_at_any_moment : forall fs rowsets shared ops j tb,
-  fields_okb fs = true -> guarded fs rowsets (init_sess fs shared) ops ->
+  fields_okb fs = true ->
   nth j (ss_tabs (mrun fs rowsets (init_sess fs shared) ops)) None = Some tb ->
   t_cols (tb_st tb) <> [] ->
   let rows := nth (tb_k tb) rowsets [] in let t := tb_st tb in
@@ -194,8 +193,8 @@ Theorem session_roundtrip_at_any_moment : forall fs rowsets shared ops j tb,
   (forall s, In s [[]; [ch_semi]; [ch_semi; ch_semi]] ->
    set_fmt t s = Ok (cleared t) /\ snd (print rows (cleared t)) = snd (print rows t)).
 Proof.
-  exact (fun fs rowsets shared ops j tb Hfs Hg E Hne =>
-           any_moment fs _ _ Hfs (session_tables fs rowsets shared ops j tb Hfs Hg E) Hne).
+  exact (fun fs rowsets shared ops j tb Hfs E Hne =>
+           any_moment fs _ _ Hfs (session_tables fs rowsets shared ops j tb Hfs E) Hne).
 Qed.
 Print Assumptions session_roundtrip_at_any_moment.
 
@@ -215,29 +214,49 @@ Print Assumptions session_siblings_untouched.
 
 (* non-vacuity: one PPTableFormat 'id:2-8,name:1-20;1:1' shared by a table with short and
    a table with long values, a third table made from the printed first table's format
-   object over the long records; each ends with the widths of its own records *)
+   object over the long records; then a column is removed from the first (printed) table
+   and the limits of the second (printed) one are changed: both forget their widths *)
 Example witness_session :
   fields_okb sw_fields = true /\
-  guarded sw_fields [sw_short; sw_long] (init_sess sw_fields [Some sw_fmt]) sw_ops /\
   map (fun o => match o with Some tb => fmt_to_str (tb_st tb) | None => [] end) (ss_tabs sw_final) =
-    [[110;97;109;101;58;49;45;50;48;40;52;41]; [105;100;58;50;45;56;40;53;41;44;110;97;109;101;58;49;45;50;48;40;50;48;41;59;49;58;49];
+    [[110;97;109;101;58;49;45;50;48;59;49;58;49]; [105;100;58;50;45;56;44;110;97;109;101;58;49;45;50;48;59;48;58;50];
      [105;100;58;50;45;56;40;53;41;44;110;97;109;101;58;49;45;50;48;40;50;48;41]] /\
   map (fun o => match o with Some t => fmt_to_str t | None => [] end) (ss_shared sw_final) =
     [[105;100;58;50;45;56;44;110;97;109;101;58;49;45;50;48;59;49;58;49]].
 Proof. exact sw_witness. Qed.
 Print Assumptions witness_session.
 
-(* outside the histories above: after remove_columns() dropped a break-by column
-   of an already rendered table, the stored widths are not the ones a re-formatted
-   table negotiates - the faithful model shows different views (candidate finding,
-   see harness/props/c13.notes.md) *)
-Theorem remove_break_column_refuted : exists fs rows s names t0 t1,
-  fields_okb fs = true /\ ctor fs (Some s) None None = Ok t0 /\
-  t1 = remove_columns (fst (print rows t0)) names /\ wf t1 = true /\
-  set_fmt t1 (fmt_to_str t1) = Ok (reformatted t1) /\
-  snd (print rows (reformatted t1)) <> snd (print rows t1).
-Proof. exact stale_after_remove. Qed.
-Print Assumptions remove_break_column_refuted.
+(* remove_columns / set_limits at any moment: nothing changes (names that match no
+   column; limits = None), or the negotiated widths and any_lines_skipped are
+   forgotten - so the state stays coherent whatever was rendered before *)
+Theorem remove_columns_resets : forall t names,
+  remove_columns t names = t \/
+  (fresh (remove_columns t names) = true /\ t_skipped (remove_columns t names) = None).
+Proof.
+  intros t names. destruct (remove_cases t names) as [E|E]; [left; exact E|right].
+  rewrite E. split; [apply fresh_map_clone|reflexivity].
+Qed.
+Print Assumptions remove_columns_resets.
+
+Theorem remove_and_limits_keep_coherent : forall rows t names lim, coherent rows t ->
+  coherent rows (remove_columns t names) /\ coherent rows (set_limits t lim).
+Proof. exact (fun rows t names lim H => conj (remove_coherent rows t names H) (set_limits_coherent rows t lim H)). Qed.
+Print Assumptions remove_and_limits_keep_coherent.
+
+(* the witness of the former finding stale-width-after-remove-columns (refuted the
+   round trip before the repair 38581d5 of ak/ppobj.py): 'g!:2,k:1,name:1-10;2:2' on seven
+   records, print, remove the break-by column g - and print, set_limits((1, 1)) *)
+Example remove_break_column_repaired : exists t0 t1 t2,
+  fields_okb st_fields = true /\ ctor st_fields (Some st_fmt) None None = Ok t0 /\
+  t1 = remove_columns (fst (print st_rows t0)) [[103]] /\ t_cols t1 <> t_cols (fst (print st_rows t0)) /\
+  snd (print st_rows (reformatted t1)) = snd (print st_rows t1) /\
+  snd (print st_rows (rebuilt t1)) = snd (print st_rows t1) /\
+  t2 = set_limits (fst (print st_rows t0)) (Some (Some 1, Some 1)) /\
+  snd (print st_rows (reformatted t2)) = snd (print st_rows t2) /\
+  snd (print st_rows (rebuilt t2)) = snd (print st_rows t2) /\
+  snd (print st_rows t2) <> snd (print st_rows (fst (print st_rows t0))).
+Proof. exact repaired_after_remove. Qed.
+Print Assumptions remove_break_column_repaired.
 
 (* non-vacuity: a printed table with a ranged column, a modifier, a break-by
    column, a repeated field and exceeded limits; names with blanks, '<', '-' *)
